@@ -73,7 +73,7 @@ def monitorSign (prop : String) (res : Sign.Result) (isRemote : Bool) (keyMatche
   let iok ← fldBool impl "ok"
   match res with
   | .ok c =>
-    if !iok then return (if prop == "C08" then some "valid_request_rejected" else none)
+    if !iok then return (if prop == "C08" || prop == "C03" then some "valid_request_rejected" else none)
     if prop == "C13" then
       -- the attributes of the request, seen through the returned bytes and through the signing object itself
       if !keyMatchesLeaf then return none
@@ -118,7 +118,7 @@ def monitorSign (prop : String) (res : Sign.Result) (isRemote : Bool) (keyMatche
       | none => pure ()
     return none
   | .err _ _ =>
-    if iok then return (if prop == "C16" then some "invalid_request_produced_an_envelope" else none)
+    if iok then return (if prop == "C16" || prop == "C03" then some "invalid_request_produced_an_envelope" else none)
     if prop != "C16" then return none
     if (fldOpt impl "bytes_with_error").isSome then return some "bytes_returned_with_error"
     if (fldOpt impl "object_shows_after_error").isSome then return some "failed_request_observable_on_the_object"
